@@ -234,6 +234,40 @@ def check_point_in_poly(ctx, prog, rule="c13.pip"):
     ctx.floor(rule, "loop-carried vertex flags in point_in_poly", nflags, 1)
 
 
+def check_crossing_side(ctx, prog, rule="c13.pip"):
+    """crossing-number test, second half: an edge (v_i -> v_j) that straddles the horizontal through the point counts when the point is on one side of it, i.e.
+    by the sign of the cross product (v_i - p) x (v_j - v_i) = (x_i - x)(y_j - y_i) - (y_i - y)(x_j - x_i).  The comparison in point_in_poly is brought to the
+    form `lhs - rhs` and compared, up to sign, with that polynomial: a coordinate of the wrong vertex (v_j.y for v_i.y) leaves rectangles right and breaks every
+    slanted edge."""
+    fs = [f for f in prog.fns.values() if f.path.endswith("raytracing::ray::point_in_poly")]
+    ctx.require(len(fs) == 1, "point_in_poly not found")
+    f = fs[0]
+    sc = Scope(prog, f)
+    cands = []
+    for b in range(f.body.n):
+        for st in f.body.blocks[b]["st"]:
+            if st["s"] == "assign" and st["rv"]["r"] == "bin" and st["rv"]["op"] in ("Ge", "Le", "Gt", "Lt"):
+                n = strip(sc.rvalue(st["rv"]))
+                if any(strip(x)[0] == "bin" and strip(x)[1] == "Mul" for x in (n[2], n[3])):
+                    cands.append((n, st.get("ln")))
+    if len(cands) != 1:
+        raise AnalysisError("point_in_poly: the side test of the crossing edge (a comparison of two products) was not found (%d candidates)" % len(cands))
+    n, ln = cands[0]
+    lm = {"poly[].x": "xi", "poly[].y": "yi", "v_j.x": "xj", "v_j.y": "yj", "pt.x": "x", "pt.y": "y", "v_i.x": "xi", "v_i.y": "yi"}
+    nz = Normalizer(lm, {}, strict=False)
+    diff = nz.code(("bin", "Sub", n[2], n[3]))
+    ref = nz.ref("(yi - y)*(xj - xi) - (xi - x)*(yj - yi)")
+    key = rule + "|crossing-side"
+    if nz.unknown:
+        raise AnalysisError("point_in_poly: the side test uses quantities this rule cannot name: %s" % sorted(set(nz.unknown))[:4])
+    neg = nz.ref("0 - ((yi - y)*(xj - xi) - (xi - x)*(yj - yi))")
+    if diff.equals(ref) or diff.equals(neg):
+        ctx.ok(rule, key, "the side of a straddling edge is the sign of (v_i - p) x (v_j - v_i)", f.loc(ln))
+    else:
+        ctx.violation(rule, key, "the side test compares %s with 0; the cross product (v_i - p) x (v_j - v_i) is %s: a coordinate of the wrong vertex - right for axis-parallel "
+                      "edges, wrong for slanted ones (triangles, gables)" % (str(diff)[:160], str(ref)[:120]), f.loc(ln))
+
+
 def check_node_list_conservation(ctx, prog, rule):
     gen = prog.find("energy::raytracing::bvh::BVH::<T>::generate_node_list")
     # conservation of obstacles in the node list: an element list (Vec<T>, Option<Vec<T>>) that generate_node_list owns is moved on - into a work item, a
@@ -419,6 +453,7 @@ def run(ctx):
     check_node_list_conservation(ctx, prog, "c13.conserve")
     check_slab_test(ctx, prog)
     check_point_in_poly(ctx, prog)
+    check_crossing_side(ctx, prog)
     # D5 reveal surfaces of set-back windows (exact symbolic geometry, ctecheck/rules/_reveal.py)
     from ._reveal import check_reveals, check_reveal_frame
     check_reveals(ctx, "c13.reveal", "c13.reveal")
@@ -474,6 +509,14 @@ def run(ctx):
             if n_[0] == "discr" and "branch(" in show(n_):
                 continue      # the `?` on the box test
             extra.append("%s is %s" % (show(n_)[:60], tk_))
+        # an Option adaptor between the box test and its `?` (filter, take_if, and_then ..) decides on the entry distance as well
+        from ..mir import pl_local
+        bdest = pl_local(box[0][1]["dest"])
+        for b_, t_, nm_ in calls:
+            if short_callee(nm_) in ("filter", "take_if", "and_then", "filter_map", "xor", "zip", "is_some_and") and "ption" in nm_ and t_["args"]:
+                a0 = t_["args"][0]
+                if (a0.get("m") == bdest or a0.get("c") == bdest) and body.dominates(b_, poly[0][0]):
+                    extra.append("the box test's distance also passes `%s`" % short_callee(nm_))
         if kind == "propagated" and dom and ret_is_poly and extra:
             ctx.violation("c13.order", key, "after the box test succeeds the polygon is tested only when %s: an obstacle whose box the ray does hit is dropped without looking "
                           "at its polygon (e.g. a negative entry distance means the ray starts inside the box, not that the obstacle is behind it)" % " and ".join(extra), occ.loc(poly[0][1].get("ln")))
